@@ -181,7 +181,9 @@ pub fn run(ctx: &Ctx, model: &mut Model, rep: &mut Report) {
     for i in 0..n {
         let mut r = Rng::for_case(ctx.seed ^ 0xC02, i as u64);
         let key = r.pick(&keys[..]).clone();
-        let p = hist::profile_for(&keys, &key, true);
+        let mut p = hist::profile_for(&keys, &key, true);
+        // odd cases (oracle only, the correspondence takes the even ones): table cells with inline markup
+        p.table_markup = i % 2 == 1;
         let text = gen::document(&mut r, &p);
         rep.case(&text, text.split("\n\n").count() >= 2);
         if i < 2 {
